@@ -181,6 +181,169 @@ def header(d):
     return "circuit " + " ".join("%s=%s" % (k, v) for k, v in d.items())
 
 
+# ----------------------------------------------------------------------------- how the breaker is built: presets, builder chains
+#
+# `preset=<builder|fn|standard|fast_fail|tolerant>`: where the builder comes from; `chain=i1,i2,…`: the builder chain itself,
+# left to right (harness/src/mw_circuit.rs). `cfgof` is the configuration the DOCUMENTATION promises for a header (config.rs /
+# layer.rs doc comments): every setting is the one set last, an unset minimum_number_of_calls is the FINAL window size, a
+# preset is its documented values. Monitors read the configuration through it, never from the raw header.
+
+PRESETS = {"standard": {"fr": "1/2", "size": "100", "wait": 30000, "permitted": "3"},
+           "fast_fail": {"fr": "1/4", "size": "20", "wait": 10000, "permitted": "1"},
+           "tolerant": {"fr": "3/4", "size": "200", "wait": 60000, "permitted": "5"}}
+BUILDER = {"fr": "1/2", "size": "100", "wait": 30000, "permitted": "1"}
+CHAIN_KEYS = {"fr": "fr", "size": "size", "wait": "wait", "perm": "permitted", "wdur": "wdur", "min": "min", "slow": "slow", "sr": "sr"}
+BUILDER_WORDS = ("fr", "size", "wait", "permitted", "wtype", "wdur", "min", "slow", "sr", "cls", "listen")
+
+
+def cfgof(case):
+    """the effective (documented) configuration of a case as a dict of the classic header keys"""
+    k = kvs(case["header"] if isinstance(case, dict) else case)
+    if "chain" not in k and "preset" not in k:
+        return k
+    ms = 1000 if k.get("tick") == "us" else 1
+    eff = dict(BUILDER)
+    eff.update(PRESETS.get(k.get("preset", "builder"), {}))
+    eff["wait"] = str(eff["wait"] * ms)
+    out = {x: y for x, y in k.items() if x not in BUILDER_WORDS and x != "chain"}
+    if "chain" not in k:
+        for x in BUILDER_WORDS:
+            if x in k:
+                eff[x] = k[x]
+        eff.setdefault("listen", "1")
+        if eff.get("wtype") == "time":
+            eff.setdefault("wdur", "1000")
+        if "slow" in eff:
+            eff.setdefault("sr", "1/1")
+    else:
+        eff["listen"] = "0"
+        for it in k["chain"].split(","):
+            a, _, b = it.partition(":")
+            if a in CHAIN_KEYS:
+                eff[CHAIN_KEYS[a]] = b
+            elif a == "wtype":
+                eff["wtype"] = b
+            elif a in ("cls", "clsr"):
+                eff["cls"] = b
+                eff["clsr"] = "1" if a == "clsr" else "0"
+            elif it == "lis:tr":
+                eff["listen"] = "1"
+        if eff.get("wtype") != "time":
+            eff.pop("wtype", None)
+        if "slow" in eff:
+            eff.setdefault("sr", "1/1")
+    out.update(eff)
+    return out
+
+
+def to_chain(rng, hdr):
+    """the classic header as the builder chain that asks for the same configuration: the setters in a random order — in
+    particular the classifier setters (`failure_classifier` = cls:k, `classify_response` = clsr:k) anywhere before or after
+    the window size —, overridden duplicates (an earlier value of the same setting), setters that equal the builder's
+    default dropped now and then, and the setters nothing depends on (name, the other on_* listeners)"""
+    k = kvs(hdr)
+    if "chain" in k:
+        return hdr
+    items = []
+    for key, item in (("fr", "fr"), ("size", "size"), ("wait", "wait"), ("permitted", "perm")):
+        if key in k:
+            if "preset" not in k and k[key] == str(BUILDER[key]) and k.get("tick") != "us" and rng.random() < 0.5:
+                continue            # the builder's default: not set at all
+            items.append("%s:%s" % (item, k[key]))
+        elif "preset" not in k:
+            # the harness default of the classic header
+            items.append("%s:%s" % (item, {"fr": "1/2", "size": "10", "wait": "1000", "permitted": "1"}[key]))
+    if k.get("listen", "1") != "0":
+        items.append("lis:tr")
+    if k.get("wtype") == "time":
+        items += ["wtype:time", "wdur:%s" % k.get("wdur", "1000")]
+    if "min" in k:
+        items.append("min:%s" % k["min"])
+    if "slow" in k:
+        items += ["slow:%s" % k["slow"], "sr:%s" % k.get("sr", "1/1")]
+    cls = int(k.get("cls", "0"))
+    if cls != 0 or rng.random() < 0.15:
+        items.append(("clsr:%d" if rng.random() < 0.35 else "cls:%d") % cls)
+    rng.shuffle(items)
+    # overridden duplicates: an earlier, different value of a setting that is set again later
+    for _ in range(rng.choice([0, 0, 1, 2])):
+        real = [i for i, x in enumerate(items) if x.split(":")[0] in ("size", "min", "fr", "wait", "perm", "wdur", "slow", "cls")]
+        if not real:
+            break
+        i = rng.choice(real)
+        key = items[i].split(":")[0]
+        if key == "cls" and any(x.startswith("clsr:") for x in items):
+            continue
+        other = {"size": rng.choice(["1", "3", "7", "50"]), "min": rng.choice(["1", "2", "9", "100"]), "fr": rng.choice(["1/10", "9/10"]),
+                 "wait": rng.choice(["1", "77", "5000"]), "perm": rng.choice(["1", "4"]), "wdur": rng.choice(["1", "333"]),
+                 "slow": rng.choice(["1", "44"]), "cls": str(rng.choice([0, 1, 2]))}[key]
+        items.insert(rng.randint(0, i), "%s:%s" % (key, other))
+    if any(x == "wtype:time" for x in items) and rng.random() < 0.2:
+        items.insert(rng.randint(0, items.index("wtype:time")), "wtype:count")
+    for extra in ("name:svc-a", "lis:slow", "lis:permitted", "lis:rejected", "lis:success", "lis:failure"):
+        if rng.random() < (0.3 if extra == "lis:slow" else 0.12):
+            items.insert(rng.randint(0, len(items)), extra)
+    words = [w for w in hdr.split() if w.split("=")[0] not in BUILDER_WORDS]
+    return " ".join(words + ["chain=%s" % (",".join(items) or "-")])
+
+
+def with_services(rng, case, other):
+    """several services made from ONE layer value: the operations of `other` (a case generated for its own configuration; here
+    its operations are just more traffic) go to service 1 — sometimes 2 — of the layer of `case`, interleaved with those of
+    `case` on service 0; callers renumbered. What one service does must never show on another."""
+    k2 = rng.choice([1, 1, 1, 2])
+    off = 1000
+    b = []
+    for o in other["ops"]:
+        w = o.split()
+        if w[0] in ("arrive", "poll", "drop", "release"):
+            w[1] = str(int(w[1]) + off)
+            if w[0] == "arrive":
+                w.append("svc=%d" % k2)
+        elif w[0] == "manual" and w[1] == "ondrop":
+            w = [x if not (x.startswith("c=") or x.startswith("by=")) else "%s=%d" % (x.split("=")[0], int(x.split("=")[1]) + off) for x in w]
+            w.append("svc=%d" % k2)
+        elif w[0] in ("manual", "probe"):
+            w.append("svc=%d" % k2)
+        elif w[0] == "adv" and rng.random() < 0.5:
+            continue
+        b.append(" ".join(w))
+    a = list(case["ops"])
+    ops = []
+    i = j = 0
+    while i < len(a) or j < len(b):
+        if j >= len(b) or (i < len(a) and rng.random() < len(a) / (len(a) + len(b) + 1.0)):
+            ops.append(a[i]); i += 1
+        else:
+            ops.append(b[j]); j += 1
+    return dict(case, ops=ops)
+
+
+def finalize(rng, case, multi_ok=True, gen_other=None):
+    """the dimensions of how the breaker is built and how its handles are used, applied to a generated case"""
+    hdr = case["header"]
+    r = rng.random()
+    if r < 0.4:
+        hdr = to_chain(rng, hdr)
+    if "via=" not in hdr and rng.random() < 0.4:
+        hdr += " via=%s" % rng.choice(["layer", "for_request", "layer_fn"])
+    if "preset=" not in hdr and rng.random() < 0.1:
+        hdr += " preset=%s" % rng.choice(["fn", "builder"])
+    case = dict(case, header=hdr)
+    if rng.random() < 0.15:
+        # handle reuse: requests made on persistent handles (`h.call(); h.call()`), clones taken after calls
+        p = rng.choice([0.3, 0.7, 1.0])
+        ops = []
+        for o in case["ops"]:
+            if (o.startswith("arrive ") or o.startswith("manual ondrop ")) and rng.random() < p:
+                o += " h=%d" % rng.choice([1, 1, 2])
+            ops.append(o)
+        case = dict(case, ops=ops)
+    if multi_ok and gen_other is not None and rng.random() < 0.1:
+        case = with_services(rng, case, gen_other(rng))
+    return case
+
+
 def fbscript(rng, d, p=0.5):
     """script of this caller's fallback future (only meaningful with a fallback configured): a fallback is a future of
     its own — a replica read, a remote cache — that need not finish on its first poll, may fail, panic or hang"""
@@ -428,6 +591,8 @@ def gen_conc(rng, tier, halfopen_bias=False):
     n = rng.randint(15, 70)
     pfail = rng.choice([0.3, 0.6, 0.9, 1.0]) if not halfopen_bias else rng.choice([0.0, 0.2, 0.5])
     ondrop_p = rng.choice([0, 0.3, 0.8])
+    gate_p = rng.choice([0, 0, 0, 0.05, 0.1])       # the wrapped service loses / regains its readiness now and then
+    health_p = rng.choice([0, 0, 0.5])              # overrides given as health signals, scheduled at once or later
     if halfopen_bias:
         # open it quickly: failures until open (or force), then wait
         if rng.random() < 0.5:
@@ -483,7 +648,16 @@ def gen_conc(rng, tier, halfopen_bias=False):
         elif r < 0.88:
             ops.append("settle")
         elif r < 0.91:
-            ops.append("manual " + rng.choice(["force_open", "force_open", "force_closed", "reset"]))
+            if rng.random() < health_p:
+                ops.append("manual " + rng.choice(["trigger_unhealthy", "trigger_unhealthy", "trigger_healthy"]))
+                if rng.random() < 0.6:
+                    ops.append("manual yield")
+            else:
+                ops.append("manual " + rng.choice(["force_open", "force_open", "force_closed", "reset"]))
+        elif rng.random() < gate_p * 4:
+            ops.append("manual " + rng.choice(["inner_down", "inner_up", "inner_up", "inner_fail"]))
+        elif health_p and rng.random() < 0.3:
+            ops.append("manual yield")
         else:
             ops.append("probe views")
     ops.append("settle")
@@ -557,26 +731,288 @@ def gen_pending_fallback(rng, tier, halfopen=False):
     return {"header": header(d), "ops": ops}
 
 
+
+def gen_health(rng, tier, sequential=False):
+    """health signals (`HealthTriggerable`, cargo feature health-integration): `trigger_unhealthy()` / `trigger_healthy()`
+    return at once and leave a spawned task behind that applies force_open / force_closed when the scheduler gets to it
+    (`manual yield`). In the window between the two the breaker is probed (state(), state_sync(), is_open(), http_status(),
+    health_status(), metrics) and callers arrive and are polled: nobody may see the breaker open before it is — and once
+    anybody has seen it open no call may get through. `sequential`: every call completes before the next operation (C04)."""
+    d = gen_cfg(rng, "seq" if sequential else "conc")
+    w = _w(d)
+    ops = []
+    c = [0]
+    live = []
+
+    def call(p_late=0.0):
+        c[0] += 1
+        o = outcome(rng, rng.choice([0.1, 0.5]))
+        tag = " tag=%d" % rng.randint(0, 9) if d["cls"] == 2 else ""
+        lat = 0 if sequential or rng.random() < 0.6 else rng.choice([1, 5, 20, 50])
+        ops.append("arrive %d inner=%d:%s%s%s" % (c[0], lat, o, tag, fbscript(rng, d, 0.3)))
+        if rng.random() >= p_late or sequential:
+            ops.append("poll %d" % c[0])
+            if lat:
+                live.append(c[0])
+        else:
+            live.append(c[0])
+
+    for _ in range(rng.randint(0, 3)):
+        call()
+    for _ in range(rng.randint(2, 6)):
+        sig = rng.choice(["trigger_unhealthy", "trigger_unhealthy", "trigger_unhealthy", "trigger_healthy"])
+        ops.append("manual " + sig)
+        # the window: the signal has been given, the task has not run
+        for _ in range(rng.choice([0, 0, 1, 2, 3, 4])):
+            r = rng.random()
+            if r < 0.3:
+                ops.append("probe views")
+            elif r < 0.8:
+                call(0.2)
+            elif r < 0.9 and live:
+                ops.append("poll %d" % rng.choice(live))
+            else:
+                ops.append("manual " + rng.choice(["trigger_unhealthy", "trigger_healthy", "force_open", "force_closed", "reset"]))
+        ops.append("manual yield")
+        ops.append("probe views")
+        for _ in range(rng.randint(0, 4)):
+            r = rng.random()
+            if r < 0.5:
+                call(0.1)
+            elif r < 0.75:
+                ops.append("adv %d" % rng.choice([w - 1, w, w, w + 1, 1, 5]))
+            elif r < 0.85 and live and not sequential:
+                ops.append("poll %d" % rng.choice(live))
+            elif r < 0.92:
+                ops.append("manual yield")
+            else:
+                ops.append("probe views")
+    ops += ["settle", "probe views"]
+    if sequential:
+        check_f64(d, c[0])
+    return {"header": header(d), "ops": ops}
+
+
+def gen_unready(rng, tier, halfopen=False):
+    """the wrapped service loses its readiness (`manual inner_down` / `inner_fail`: a connection-backed client whose link
+    drops, a drained pool) AFTER callers obtained readiness and created their call futures and BEFORE those futures are first
+    polled; then the breaker opens (force_open, a health signal, or the calls in flight failing); then the wrapped service
+    comes back (`inner_up`). An admitted call is inside the wrapped service from the poll that admits it; requests arriving
+    while it is not ready never get to the breaker. `halfopen`: the same around a half-open episode (trial slots)."""
+    d = gen_cfg(rng, "conc")
+    d["size"] = rng.choice([1, 2, 3])
+    d.pop("min", None)
+    d["fr"] = rng.choice(["1/2", "1/1"])
+    if d["wait"] == "max":
+        d["wait"] = 50
+    w = d["wait"]
+    ops = []
+    c = [0]
+
+    def arrive(inner, poll=False):
+        c[0] += 1
+        tag = " tag=%d" % (2 * rng.randint(0, 4)) if d["cls"] == 2 else ""
+        ops.append("arrive %d inner=%s%s%s" % (c[0], inner, tag, fbscript(rng, d, 0.3)))
+        if poll:
+            ops.append("poll %d" % c[0])
+        return c[0]
+
+    if halfopen:
+        ops += ["manual force_open", "adv %d" % rng.choice([w, w + 1])]
+    flying = [arrive("%d:%s" % (rng.choice([5, 20, 50]), rng.choice(["err1", "err1", "ok"])), True) for _ in range(rng.randint(0, d["size"] + 1))]
+    parked = [arrive(rng.choice(["0:ok", "5:ok", "50:ok", "0:err1"])) for _ in range(rng.randint(1, 3))]
+    ops.append("manual " + rng.choice(["inner_down", "inner_down", "inner_fail"]))
+    order = list(parked)
+    rng.shuffle(order)
+    late = []
+    for x in order:
+        if rng.random() < 0.85:
+            ops.append("poll %d" % x)       # first poll with the wrapped service not ready any more
+        else:
+            late.append(x)
+    if rng.random() < 0.5:
+        arrive("0:ok")                       # arrives while not ready: turned away before the breaker
+    r = rng.random()
+    if r < 0.4:
+        ops.append("manual force_open")
+    elif r < 0.6:
+        ops += ["manual trigger_unhealthy"] + (["probe views"] if rng.random() < 0.5 else []) + ["manual yield"]
+    else:
+        ops.append("adv 50")
+        for x in flying:
+            ops.append("poll %d" % x)
+        if rng.random() < 0.4:
+            ops.append("manual force_open")
+    ops.append("probe views")
+    if rng.random() < 0.3:
+        ops += ["manual inner_fail", "arrive %d inner=0:ok" % (c[0] + 1)]
+        c[0] += 1
+    ops.append("manual inner_up")
+    for x in order + late:
+        if rng.random() < 0.9:
+            ops.append("poll %d" % x)
+    ops.append("probe views")
+    for _ in range(rng.randint(1, 3)):
+        arrive(rng.choice(["0:ok", "20:ok"]), True)
+    ops += ["adv %d" % rng.choice([w - 1, w, w + 1, 50]), "settle"]
+    for _ in range(rng.randint(1, 3)):
+        arrive(rng.choice(["0:ok", "20:ok", "0:err1"]), True)
+        if rng.random() < 0.3:
+            ops.append("manual " + rng.choice(["inner_down", "inner_up"]))
+    ops += ["manual inner_up", "adv 60", "settle", "probe views"]
+    return {"header": header(d), "ops": ops}
+
+
+def gen_preset(rng, tier):
+    """the preset constructors (`CircuitBreakerLayer::standard() / fast_fail() / tolerant()`), `circuit_breaker_builder()` and
+    the bare builder, as they are or customised afterwards (a smaller window: the minimum follows it; another wait; a custom
+    classifier installed before or after): a sequential history that fills the window with the failure count one below / at /
+    one above the documented threshold, waits the documented wait (−1 / exactly), runs the permitted trial calls."""
+    p = rng.choice(["standard", "fast_fail", "tolerant", "fn", "builder", "fast_fail"])
+    eff = {"fr": BUILDER["fr"], "size": int(BUILDER["size"]), "wait": BUILDER["wait"], "permitted": int(BUILDER["permitted"])}
+    for a, b in PRESETS.get(p, {}).items():
+        eff[a] = b if a == "fr" else int(b)
+    d = {"preset": p}
+    if rng.random() < 0.55:
+        d["size"] = rng.choice([2, 3, 4, 5, 8, 12])
+    if rng.random() < 0.35:
+        d["wait"] = rng.choice([10, 50, 100])
+    if rng.random() < 0.2:
+        d["permitted"] = rng.choice([1, 2, 3])
+    if rng.random() < 0.2:
+        d["fr"] = rng.choice(["1/2", "1/4", "3/4", "1/1", "3/10"])
+    if rng.random() < 0.15:
+        d["min"] = rng.choice([1, 2, d.get("size", eff["size"])])
+    if rng.random() < 0.3:
+        d["cls"] = rng.choice([1, 2])
+    if rng.random() < 0.25:
+        d["listen"] = 0
+    if rng.random() < 0.2:
+        d["fallback"] = 1
+    for a in ("fr", "size", "wait", "permitted"):
+        if a in d:
+            eff[a] = d[a]
+    n = int(eff["size"])
+    num, den = frac(eff["fr"], "1/2")
+    k = -(-num * n // den)
+    m = max(0, min(n, k + rng.choice([-1, 0, 0, 1])))
+    marks = [True] * m + [False] * (n - m)
+    rng.shuffle(marks)
+    ops = []
+    c = [0]
+
+    def call(fail, probe=False):
+        c[0] += 1
+        # err1 is a failure for every classifier; an even tag keeps `ok` a success for classifier 2
+        ops.extend(["arrive %d inner=0:%s tag=%d" % (c[0], "err1" if fail else "ok", 2 * rng.randint(0, 4)), "poll %d" % c[0]])
+        if probe or rng.random() < 0.05:
+            ops.append("probe views")
+
+    for i, mk in enumerate(marks):
+        call(mk, probe=(i >= n - 2))
+    for _ in range(rng.randint(0, 3)):
+        call(rng.random() < 0.5, probe=True)
+    W = int(eff["wait"])
+    ops += ["adv %d" % rng.choice([W, W, W - 1, W + 1]), "probe views"]
+    for _ in range(int(eff["permitted"]) + rng.choice([0, 1])):
+        call(rng.random() < 0.15, probe=True)
+    if rng.random() < 0.5:
+        ops += ["adv 1"]
+        call(False, probe=True)
+    e2 = dict(eff, fr=eff["fr"], size=n)
+    e2.update({x: d[x] for x in ("wtype", "slow", "sr") if x in d})
+    check_f64(e2, c[0])
+    return {"header": header(d), "ops": ops}
+
+
+def gen_preset_halfopen(rng, tier):
+    """a preset's documented `permitted_calls_in_half_open` (standard 3, fast_fail 1, tolerant 5; the builder's default 1) and
+    its documented wait: forced open, the wait elapses (−1 / exactly), more callers than permitted arrive together with slow
+    trial calls, some are dropped, the rest complete"""
+    p = rng.choice(["standard", "fast_fail", "tolerant", "fn", "builder"])
+    permitted = int(PRESETS.get(p, BUILDER)["permitted"])
+    W = PRESETS.get(p, BUILDER)["wait"]
+    d = {"preset": p}
+    if rng.random() < 0.5:
+        W = d["wait"] = rng.choice([10, 50])
+    if rng.random() < 0.3:
+        d["listen"] = 0
+    if rng.random() < 0.3:
+        d["fallback"] = 1
+    ops = ["manual force_open", "adv %d" % (W - 1), "arrive 1 inner=0:ok", "poll 1", "adv 1"]
+    c = 1
+    live = []
+    for _ in range(permitted + rng.randint(1, 3)):
+        c += 1
+        ops += ["arrive %d inner=%s%s" % (c, rng.choice(["500:ok", "500:ok", "0:never", "30:ok"]), fbscript(rng, d, 0.3)), "poll %d" % c]
+        live.append(c)
+    ops.append("probe views")
+    for _ in range(rng.randint(0, 2)):
+        x = rng.choice(live)
+        live.remove(x)
+        c += 1
+        ops += ["drop %d" % x, "arrive %d inner=500:ok" % c, "poll %d" % c]
+        live.append(c)
+    ops += ["adv 500", "settle", "probe views"]
+    c += 1
+    ops += ["arrive %d inner=0:ok" % c, "poll %d" % c, "probe views"]
+    return {"header": header(d), "ops": ops}
+
+
+def _other(rng):
+    """more traffic for a second service made from the same layer"""
+    r = rng.random()
+    if r < 0.5:
+        return gen_conc(rng, "quick", halfopen_bias=rng.random() < 0.5)
+    if r < 0.75:
+        return gen_health(rng, "quick")
+    return gen_seq_short(rng)
+
+
+def gen_seq_short(rng):
+    case = gen_seq(rng, "quick")
+    return dict(case, ops=case["ops"][:60])
+
+
 def gen_c03(rng, tier):
     r = rng.random()
-    if r < 0.15:
+    if r < 0.12:
         case = gen_pending_fallback(rng, tier, halfopen=rng.random() < 0.25)
-    elif r < 0.27:
-        return early_overrides(rng, gen_us(rng, tier))
+    elif r < 0.22:
+        return finalize(rng, early_overrides(rng, gen_us(rng, tier)), gen_other=_other)
+    elif r < 0.34:
+        case = gen_health(rng, tier)
+    elif r < 0.46:
+        case = gen_unready(rng, tier, halfopen=rng.random() < 0.25)
+    elif r < 0.50:
+        return finalize(rng, gen_preset(rng, tier), gen_other=_other)
     else:
-        case = gen_conc(rng, tier) if r < 0.85 else gen_seq(rng, tier)
+        case = gen_conc(rng, tier) if r < 0.88 else gen_seq(rng, tier)
     if rng.random() < 0.1:
         case = scale_us(rng, case)
-    return early_overrides(rng, case)
+    return finalize(rng, early_overrides(rng, case), gen_other=_other)
+
+
+def _other_seq(rng):
+    return gen_seq_short(rng) if rng.random() < 0.7 else gen_health(rng, "quick", sequential=True)
 
 
 def gen_c04(rng, tier):
     r = rng.random()
-    if r < 0.22:
-        return gen_boundary(rng, tier)
-    if r < 0.34:
-        return early_overrides(rng, gen_us(rng, tier))
-    return early_overrides(rng, gen_seq(rng, tier))
+    if r < 0.20:
+        return finalize(rng, gen_boundary(rng, tier), gen_other=_other_seq)
+    if r < 0.30:
+        return finalize(rng, early_overrides(rng, gen_us(rng, tier)), gen_other=_other_seq)
+    if r < 0.38:
+        return finalize(rng, gen_preset(rng, tier), gen_other=_other_seq)
+    if r < 0.47:
+        return finalize(rng, early_overrides(rng, gen_health(rng, tier, sequential=True)), gen_other=_other_seq)
+    if r < 0.55:
+        # "half-open to closed after permitted successes and back to open on any failure" with the trial calls in flight
+        # together and more callers arriving meanwhile: whether the inner service is invoked is part of the observable state
+        case = gen_episodes(rng, tier) if rng.random() < 0.4 else gen_conc(rng, tier, halfopen_bias=True)
+        return finalize(rng, early_overrides(rng, case), gen_other=_other)
+    return finalize(rng, early_overrides(rng, gen_seq(rng, tier)), gen_other=_other_seq)
 
 
 def gen_stale_trial(rng, tier):
@@ -723,11 +1159,17 @@ def gen_c09(rng, tier):
         case = gen_episodes(rng, tier)
     elif r < 0.36:
         case = gen_pending_fallback(rng, tier, halfopen=True)
+    elif r < 0.42:
+        case = gen_unready(rng, tier, halfopen=True)
+    elif r < 0.46:
+        case = gen_health(rng, tier)
+    elif r < 0.50:
+        return finalize(rng, gen_preset_halfopen(rng, tier), gen_other=_other)
     else:
         case = gen_conc(rng, tier, halfopen_bias=True) if r < 0.88 else gen_conc(rng, tier)
     if rng.random() < 0.1:
         case = scale_us(rng, case)
-    return early_overrides(rng, case)
+    return finalize(rng, early_overrides(rng, case), gen_other=_other)
 
 
 # ----------------------------------------------------------------------------- monitors
@@ -742,9 +1184,135 @@ def frac(s, d):
     return int(a), int(b)
 
 
+# ----------------------------------------------------------------------------- several services made from one layer
+#
+# Every `layer()` call makes a breaker of its own. The monitors state their clauses per breaker: the log of a case with
+# `svc=` operations is split into one log per service and every monitor runs on each of them. A line belongs to the service of
+# its caller (`arrive c … svc=k`, `manual ondrop … by=c2 … svc=k`), `manual` / `probe` lines say ` svc=k` themselves, a
+# `transition` line (the listener is registered on the builder: one closure for all services) belongs to the operation that
+# caused it — the `manual` line (override, `yield`) or the `inner_done` just before it, else the admission right after it.
+
+def split_services(case, lines, meta):
+    """None for a single-service case; else {svc: (lines, meta)} with the meta positions remapped"""
+    if not any(" svc=" in o for o in case["ops"]):
+        return None
+    owner = {}
+    for o in case["ops"]:
+        w = o.split()
+        if w[0] == "arrive":
+            owner[w[1]] = kvs(o).get("svc", "0")
+        elif w[:2] == ["manual", "ondrop"]:
+            k = kvs(o)
+            owner[k.get("by")] = k.get("svc", "0")
+    svc = []
+    last_manual = "0"
+    for i, l in enumerate(lines):
+        _, w = tparse(l)
+        if not w:
+            svc.append("0")
+        elif w[0] in ("manual", "probe"):
+            svc.append(kvs(l).get("svc", "0"))
+            last_manual = svc[-1]
+        elif w[0] == "manual_blocked":
+            svc.append(last_manual)
+        elif w[0] == "transition":
+            svc.append(None)
+        else:
+            svc.append(owner.get(w[1] if len(w) > 1 else "", "0"))
+    state = {}          # per service: the state its own transitions have led to
+    for i, l in enumerate(lines):
+        if svc[i] is not None:
+            continue
+        _, w = tparse(l)
+        _, pw = tparse(lines[i - 1]) if i > 0 else (None, [])
+        if w[2] != "halfopen" and i > 0 and pw and pw[0] in ("manual", "inner_done", "transition"):
+            # an override / a scheduled health signal / a recorded outcome: the line just before it
+            k = svc[i - 1]
+        else:
+            # open -> half-open happens in the admission of the caller whose inner call follows
+            j = i + 1
+            while j < len(lines) and svc[j] is None:
+                j += 1
+            k = svc[j] if j < len(lines) else "0"
+        if state.get(k, "closed") != w[1]:
+            others = [x for x in set(svc) - {None, k} if state.get(x, "closed") == w[1]]
+            if len(others) == 1:
+                k = others[0]
+        svc[i] = k
+        state[k] = w[2]
+    parts = {}
+    index = []          # per original line: (svc, position in that service's log)
+    for i, l in enumerate(lines):
+        ls, _ = parts.setdefault(svc[i], ([], []))
+        index.append((svc[i], len(ls)))
+        ls.append(l)
+    for pos, m in meta or ():
+        mw = m.split()
+        k = owner.get(mw[1], "0") if len(mw) > 1 and mw[0] not in ("#slow", "#unwoken_progress") else (svc[pos - 1] if 0 < pos <= len(lines) else "0")
+        if k not in parts:
+            parts[k] = ([], [])
+        if pos < 0:
+            npos = -1
+        else:
+            npos = len(parts[k][0])
+            for q in range(pos, len(lines)):
+                if index[q][0] == k:
+                    npos = index[q][1]
+                    break
+        parts[k][1].append((npos, m))
+    return parts
+
+
+def per_service(mon):
+    def f(case, lines, meta):
+        parts = split_services(case, lines, meta)
+        if parts is None:
+            return mon(case, lines, meta)
+        for k in sorted(parts):
+            r = mon(case, parts[k][0], parts[k][1])
+            if r:
+                return "service %s of the layer: %s" % (k, r)
+        return None
+    f.__doc__ = mon.__doc__
+    return f
+
+
+def views_agree(l):
+    """one `probe views` line: the async view, the lock-free view, `is_open()`, the metrics snapshot, `http_status()` and
+    `health_status()` must all tell the same state"""
+    kv = kvs(l)
+    st = kv.get("state")
+    want = {"sync": st, "mstate": st, "is_open": "1" if st == "open" else "0"}
+    if "http" in kv:
+        want["http"] = "503" if st == "open" else "200"
+        want["health"] = {"closed": "healthy", "halfopen": "degraded", "open": "unhealthy"}.get(st)
+    bad = [k for k, v in want.items() if kv.get(k) != v]
+    if bad:
+        return "state()=%s but %s" % (st, ", ".join("%s=%s" % (k, kv.get(k)) for k in bad))
+    return None
+
+
+def _override(word, pend):
+    """what a `manual <word>` line does to the breaker: a list of 'open' / 'closed' (forced transitions, in order); health
+    signals only queue a task (`pend`), `yield` runs the queued ones"""
+    if word == "force_open":
+        return ["open"]
+    if word in ("force_closed", "reset"):
+        return ["closed"]
+    if word == "trigger_unhealthy":
+        pend.append("open")
+    elif word == "trigger_healthy":
+        pend.append("closed")
+    elif word == "yield":
+        did = list(pend)
+        del pend[:]
+        return did
+    return []
+
+
 def mon_c03(case, lines, meta):
     """no inner call starts between an observed transition to open at t0 and min(t0+wait, next transition)"""
-    cfg = kvs(case["header"])
+    cfg = cfgof(case)
     wait = _wait_of(cfg)
     open_since = None
     for i, l in enumerate(lines):
@@ -760,7 +1328,7 @@ def mon_c03(case, lines, meta):
             if "sync=open" not in l or "state=open" not in l:
                 return "line %d: views disagree with the observed open state: %s" % (i, l)
     # a transition out of open that is not manual must not happen before t0+wait
-    prev = None
+    by_operator = False         # the lines since the last `manual` line are all transitions (an override, or `yield` running health tasks)
     t_open = None
     for i, l in enumerate(lines):
         t, w = tparse(l)
@@ -768,11 +1336,48 @@ def mon_c03(case, lines, meta):
             continue
         if w[0] == "transition":
             if w[1] == "open" and t_open is not None and t < t_open + wait:
-                if not (prev and prev[0] == "manual"):
+                if not by_operator:
                     return "line %d: left the open state at t=%d, opened at t=%d, wait=%d, without a manual override" % (i, t, t_open, wait)
             t_open = t if w[2] == "open" else None
-        prev = w
-    return _c03_unheard(lines, wait)
+        else:
+            by_operator = w[0] == "manual"
+    return _c03_lockfree(lines, wait) or _c03_unheard(lines, wait)
+
+
+def _c03_lockfree(lines, wait):
+    """"observed open" through the lock-free view: once `state_sync()` / `is_open()` / `http_status()` have reported open, the
+    breaker has been open since some instant t_open >= the last instant at which it was demonstrably NOT open (a new breaker, a
+    probe saying otherwise, an admitted call, force_closed / reset): until t_open + wait no new call may reach the wrapped
+    service unless an operator (or a scheduled health signal) closes it first. Needs no listener."""
+    not_open_at = 0
+    seen_open = None
+    for i, l in enumerate(lines):
+        t, w = tparse(l)
+        if not w:
+            continue
+        if w[0] == "probe" and len(w) > 1 and w[1] != "blocked":
+            kv = kvs(l)
+            if kv.get("sync") == "open" or kv.get("is_open") == "1" or kv.get("http") == "503":
+                if seen_open is None:
+                    seen_open = t
+            else:
+                seen_open, not_open_at = None, t
+        elif w[0] == "manual":
+            if w[1] in ("force_closed", "reset", "yield"):
+                seen_open = None
+                if w[1] != "yield":
+                    not_open_at = t
+        elif w[0] == "transition":
+            seen_open = None
+            if w[2] != "open":
+                not_open_at = t
+        elif w[0] == "inner_call":
+            if seen_open is not None and t - not_open_at < wait:
+                return ("line %d: inner call %s started at t=%d although the lock-free view (state_sync / is_open / http_status) reported the breaker "
+                        "open at t=%d; it cannot have opened before t=%d, wait_duration_in_open=%d has not elapsed and nothing closed it in "
+                        "between" % (i, w[1], t, seen_open, not_open_at, wait))
+            seen_open, not_open_at = None, t
+    return None
 
 
 def _c03_unheard(lines, wait):
@@ -782,20 +1387,20 @@ def _c03_unheard(lines, wait):
     (calls admitted before it opened) change nothing."""
     known = "closed"
     t0 = 0
+    pend = []
     for i, l in enumerate(lines):
         t, w = tparse(l)
         if not w:
             continue
         if w[0] == "manual":
-            if w[1] == "force_open":
-                if known == "closed":
-                    known, t0 = "open", t
-                elif known != "open":
-                    known = None
-            elif w[1] in ("force_closed", "reset"):
-                known = "closed"
-            else:
-                known = None
+            for what in _override(w[1], pend):
+                if what == "open":
+                    if known == "closed":
+                        known, t0 = "open", t
+                    elif known != "open":
+                        known = None
+                else:
+                    known = "closed"
         elif w[0] == "inner_done" and known == "closed" and w[3] != "panic":
             known = None
         elif w[0] == "inner_call" and known == "open":
@@ -862,6 +1467,7 @@ class Spec:
         self.succ = 0
         self.why = ""         # why it last opened by itself
         self.notes = []       # coverage: evaluations at / one below the exact boundary
+        self.pend = []        # health signals given, their tasks not yet scheduled
 
     def goto(self, s, t):
         if s != self.state:
@@ -932,7 +1538,42 @@ def classify(cls, out, tag):
 
 def mon_c04(case, lines, meta):
     """sequential histories: the observable state follows the documented machine, all views agree"""
-    return _run_c04(case, lines, Spec(kvs(case["header"])))
+    for i, l in enumerate(lines):
+        _, w = tparse(l)
+        if w and w[0] == "probe" and len(w) > 1 and w[1] != "blocked":
+            bad = views_agree(l)
+            if bad:
+                return "line %d: the views of the breaker disagree with each other: %s (%s)" % (i, bad, l)
+    return _run_c04(case, lines, Spec(cfgof(case))) or _slow_listener(case, lines, meta)
+
+
+def _slow_listener(case, lines, meta):
+    """`on_slow_call`: called exactly for the recorded calls that lasted at least slow_call_duration_threshold, with that duration"""
+    cfg = cfgof(case)
+    if "lis:slow" not in kvs(case["header"]).get("chain", ""):
+        return None
+    S = int(cfg["slow"]) if "slow" in cfg else None
+    told = {}
+    for pos, m in meta or ():
+        mw = m.split()
+        if mw[0] == "#slow" and pos >= 0:
+            told.setdefault(pos, []).append(int(mw[1]))
+    start = {}
+    for i, l in enumerate(lines):
+        t, w = tparse(l)
+        if not w:
+            continue
+        if w[0] == "inner_call":
+            start[w[2]] = t
+        elif w[0] == "inner_done" and w[3] != "panic" and w[2] in start:
+            dur = t - start.pop(w[2])
+            got = told.pop(i + 1, [])
+            want = [dur] if S is not None and dur >= S else []
+            if got != want:
+                return "line %d: call %s lasted %d (slow_call_duration_threshold=%s): on_slow_call was called with %s, expected %s" % (i, w[1], dur, S, got, want)
+    if told:
+        return "on_slow_call was called where no call completed: %s" % sorted(told.items())[:3]
+    return None
 
 
 def _run_c04(case, lines, sp):
@@ -972,13 +1613,10 @@ def _run_c04(case, lines, sp):
             if sp.state == "open" and t - sp.since >= sp.wait:
                 return "line %d: call %s rejected although wait_duration_in_open has elapsed (open since %d, now %d)" % (i, w[1], sp.since, t)
         elif w[0] == "manual":
-            sp.why = ""
-            if w[1] == "force_open":
-                sp.goto("open", t)
-            elif w[1] == "force_closed":
-                sp.goto("closed", t)
-            elif w[1] == "reset":
-                sp.goto("closed", t)
+            for what in _override(w[1], sp.pend):
+                sp.why = ""
+                sp.goto(what, t)
+            if w[1] == "reset":
                 sp.window = []
         elif w[0] == "probe":
             kv = kvs(l)
@@ -1000,7 +1638,7 @@ def mon_c09(case, lines, meta):
     """per half-open episode: trial calls that reached the inner service and were not cancelled <= permitted. A cancelled
     trial counts until its inner call has been destroyed (`inner_drop` is logged at the end of that destructor), so a
     caller admitted during the tear-down (`#ondrop`) is in the wrapped service together with the cancelled one."""
-    cfg = kvs(case["header"])
+    cfg = cfgof(case)
     permitted = int(cfg.get("permitted", "1"))
     teardown = {}       # caller that arrived from inside the destructor of a cancelled call -> that call's caller
     for _, m in meta or ():
@@ -1049,13 +1687,15 @@ def _c09_unheard(lines, permitted):
     phase = None            # None: unknown; "open"; "half"
     trials = set()
     t0 = 0
+    pend = []
     for i, l in enumerate(lines):
         t, w = tparse(l)
         if not w:
             continue
         if w[0] == "manual":
-            phase, trials = ("open" if w[1] == "force_open" else None), set()
-            t0 = t
+            for what in _override(w[1], pend):
+                phase, trials = ("open" if what == "open" else None), set()
+                t0 = t
         elif w[0] == "probe" and phase is None and "state=open" in l:
             phase, trials, t0 = "open", set(), t
         elif w[0] == "inner_call" and phase is not None:
@@ -1105,16 +1745,18 @@ def transitions(case, lines, meta=()):
         elif w[0] in ("inner_drop", "inner_done") and w[2] in born:
             b, trial = born.pop(w[2])
             if trial and state == "halfopen":
-                full = sum(1 for bb, tt in born.values() if tt and bb == ntr) >= int(kvs(case["header"]).get("permitted", "1"))
+                full = sum(1 for bb, tt in born.values() if tt and bb == ntr) >= int(cfgof(case).get("permitted", "1"))
                 if b != ntr:
                     tags.append("leftover-%s%s" % ("dropped" if w[0] == "inner_drop" else "completed", "-while-full" if full else ""))
                 elif w[0] == "inner_drop":
                     tags.append("trial-dropped")
         elif w[0] == "manual" and state == "halfopen" and any(tt and bb == ntr for bb, tt in born.values()):
             tags.append("manual-%s-midepisode" % w[1])
-    sp = Spec(kvs(case["header"]))
-    if _run_c04(case, lines, sp) is None:
+    sp = Spec(cfgof(case))
+    multi = any(" svc=" in o for o in case["ops"])
+    if not multi and _run_c04(case, lines, sp) is None:
         tags += sorted(set(sp.notes))        # sequential histories: evaluations exactly at / one below a threshold
+    tags += build_tags(case, lines, multi)
     for l in lines:
         _, w = tparse(l)
         if not w:
@@ -1152,6 +1794,70 @@ def transitions(case, lines, meta=()):
     return tags
 
 
+def build_tags(case, lines, multi):
+    """coverage of the construction / operation dimensions: how the breaker was built, health signals, readiness, services"""
+    tags = []
+    k = kvs(case["header"])
+    if "preset" in k:
+        tags.append("preset-" + k["preset"])
+    if "via" in k:
+        tags.append("via-" + k["via"])
+    if "chain" in k:
+        items = k["chain"].split(",")
+        tags.append("chain")
+        keys = [x.split(":")[0] for x in items]
+        for c in ("cls", "clsr"):
+            if c in keys and "size" in keys:
+                tags.append("chain-%s-%s-size" % (c, "before" if keys.index(c) < len(keys) - 1 - keys[::-1].index("size") else "after"))
+        if "min" not in keys:
+            tags.append("chain-default-minimum")
+        if len(set(keys)) < len(keys):
+            tags.append("chain-overridden-setter")
+    if multi:
+        tags.append("services-several")
+    if any(" h=" in o for o in case["ops"]):
+        tags.append("handle-reused")
+    pend = 0
+    down = False
+    fresh_after_down = set()
+    for o in case["ops"]:
+        w = o.split()
+        if w[0] == "arrive" and not down:
+            fresh_after_down.add(w[1])
+        elif w[0] == "manual" and w[1] in ("inner_down", "inner_fail"):
+            down = True
+        elif w[0] == "manual" and w[1] == "inner_up":
+            down = False
+            fresh_after_down = set()
+        elif w[0] == "poll" and down and w[1] in fresh_after_down:
+            tags.append("first-poll-while-inner-not-ready")
+            fresh_after_down.discard(w[1])
+        elif w[0] == "poll":
+            fresh_after_down.discard(w[1])
+    for l in lines:
+        _, w = tparse(l)
+        if not w:
+            continue
+        if w[0] == "manual" and w[1].startswith("trigger_"):
+            pend += 1
+            tags.append("health-" + w[1])
+        elif w[0] == "manual" and w[1] == "yield":
+            if pend:
+                tags.append("health-task-scheduled")
+            pend = 0
+        elif w[0] == "inner_call" and pend:
+            tags.append("admitted-before-health-task-ran")
+        elif w[0] == "probe" and pend:
+            tags.append("probe-before-health-task-ran")
+        elif w[0] == "result" and w[2] == "notready":
+            tags.append("result-notready")
+        elif w[0] == "result" and w[2] == "err:inner9:0":
+            tags.append("result-readiness-error")
+        elif w[0] == "manual" and w[1].startswith("inner_"):
+            tags.append("manual-" + w[1])
+    return tags
+
+
 def nontrivial(case, lines, tags):
     return sum(1 for t in tags if t.startswith("tr-")) >= 2
 
@@ -1162,6 +1868,11 @@ ALL_TR = ["tr-closed-open", "tr-open-halfopen", "tr-halfopen-closed", "tr-halfop
           "admit-during-pending-fallback", "record-during-pending-fallback", "probe-during-pending-fallback", "manual-during-pending-fallback"]
 
 TR_BOUNDARY = ["trip-rate-equals-threshold", "closed-one-below-threshold"]
+TR_BUILD = ["preset-standard", "preset-fast_fail", "preset-tolerant", "preset-fn", "preset-builder", "via-layer", "via-for_request", "via-layer_fn",
+            "chain", "chain-cls-before-size", "chain-cls-after-size", "chain-clsr-before-size", "chain-clsr-after-size", "chain-default-minimum",
+            "chain-overridden-setter", "services-several", "handle-reused", "health-trigger_unhealthy", "health-trigger_healthy", "health-task-scheduled",
+            "admitted-before-health-task-ran", "probe-before-health-task-ran"]
+TR_READY = ["first-poll-while-inner-not-ready", "result-notready", "result-readiness-error", "manual-inner_down", "manual-inner_up", "manual-inner_fail"]
 TR_TEARDOWN = ["teardown-arrival-rejected", "teardown-arrival-admitted"]
 TR_EPISODES = ["leftover-dropped-while-full", "leftover-completed-while-full", "trial-dropped",
                "manual-reset-midepisode", "manual-force_open-midepisode", "manual-force_closed-midepisode"]
@@ -1180,7 +1891,8 @@ COMMON = {
     "model_modules": ["TR.Model.Circuit", "TR.Lemmas.Circuit", "TR.Lemmas.CircuitState", "TR.Lemmas.CircuitWindow", "TR.Lemmas.CircuitRefine", "TR.Spec.Breaker"],
     "lean_files": ["TR.Model.Circuit", "TR.Lemmas.Circuit", "TR.Lemmas.CircuitState", "TR.Lemmas.CircuitWindow", "TR.Lemmas.CircuitRefine", "TR.Spec.Breaker"],
     "sizes": (400, 20000),
-    "trusted": ["transcription of Circuit / CircuitBreaker::call in TR.Model.Circuit (sampled by the correspondence check)",
+    "trusted": ["transcription of Circuit / CircuitBreaker::call / the config builder / health_integration.rs in TR.Model.Circuit (sampled by the correspondence check)",
+                "tasks spawned by the health triggers run on a runtime of their own, driven only by `manual yield` (harness/src/mw_circuit.rs: Tasks)",
                 "exact-rational threshold comparison = the code's f64 comparison (argument in gen/circuit.py; checked by f64_agrees on every generated threshold/total)",
                 "harness: clock_gettime interposition, manual poller; python diff/monitors"],
     "assumptions": ["each critical section under the breaker's mutex is atomic", "usize as unbounded Nat"],
@@ -1188,32 +1900,54 @@ COMMON = {
 }
 
 SPECS = {
-    "C03": dict(COMMON, module="TR.Props.C03", gen=gen_c03, all_transitions=ALL_TR + TR_TEARDOWN, monitors=[("c03-open-shields", mon_c03), ("c03-answered-at-once", mon_at_once)],
+    "C03": dict(COMMON, module="TR.Props.C03", gen=gen_c03, all_transitions=ALL_TR + TR_TEARDOWN + TR_BUILD + TR_READY,
+                monitors=[("c03-open-shields", per_service(mon_c03)), ("c03-answered-at-once", per_service(mon_at_once))],
                 rule="concurrent callers on clones (arrive/poll/drop/adv/settle/manual/probe), opening by failure rate, slow-call rate and "
                      "force_open, advances biased to wait-1/wait/wait+1; fallbacks that are futures of their own (fb=<lat>:<ok|errK|panic|never>) left pending "
                      "while other callers arrive, earlier calls are recorded, views are probed and manual overrides issued; callers arriving from inside the "
-                     "destructor of a cancelled call (manual ondrop); distinct = distinct implementation log; non-trivial = >= 2 state transitions",
+                     "destructor of a cancelled call (manual ondrop); health signals (HealthTriggerable::trigger_unhealthy / trigger_healthy, cargo feature "
+                     "health-integration) with probes and calls in the window before the spawned task is scheduled (manual yield); the wrapped service losing its "
+                     "readiness between poll_ready and the first poll of the call future, the breaker opening, the service coming back (manual inner_down / inner_fail / "
+                     "inner_up); 40%: the configuration written as the builder chain itself (setters in any order, classifier setters before / after the window size, "
+                     "overridden setters), presets, circuit_breaker_builder(), Layer::layer / layer_fn / for_request; 10%: a second / third service made from the same "
+                     "layer value (svc=k); 15%: persistent handles reused for several calls (h=j); "
+                     "distinct = distinct implementation log; non-trivial = >= 2 state transitions",
                 level_text="Theorems TR.Props.C03.*: in every reachable state and for every step, an inner call is started only if the breaker "
                            "was not open before the admission or wait_duration_in_open had elapsed (and it first moved to half-open); a rejected "
                            "caller gets err:open / the fallback is invoked in the same step (whatever other callers' fallbacks are doing) and never an inner call; "
-                           "a pending fallback touches nothing of the breaker and no other step depends on it; the lock-free mirror always equals the state."),
-    "C04": dict(COMMON, module="TR.Props.C04", gen=gen_c04, all_transitions=ALL_TR + TR_BOUNDARY, monitors=[("c04-documented-machine", mon_c04)],
+                           "a pending fallback touches nothing of the breaker and no other step depends on it; the lock-free mirror always equals the state; "
+                           "a health trigger changes nothing until its task is scheduled and is then exactly the override (so whoever sees the lock-free view open is "
+                           "shielded: lockfree_view_open_shields, status_accessors_agree); admission and the start of the inner call are one step whatever the readiness "
+                           "of the wrapped service (admitted_call_starts_at_once), a request arriving while it is not ready never reaches the breaker; services made from "
+                           "one layer are independent breakers, each a run of the single-breaker model (services_are_independent, open_shields_per_service)."),
+    "C04": dict(COMMON, module="TR.Props.C04", gen=gen_c04, all_transitions=ALL_TR + TR_BOUNDARY + TR_BUILD,
+                monitors=[("c04-documented-machine", per_service(mon_c04)), ("c04-halfopen-trials", per_service(mon_c09))],
                 rule="sequential histories (length 10..300) over success/failure/slow success/slow failure/wait/force_open/force_closed/reset with "
                      "probe views after every step; both window types; thresholds incl. 0 and 1; min calls below/equal/above the window; three classifiers; "
                      "25%: exact-boundary configurations (thresholds with 2-3 decimals, windows up to 100, count- and time-based, failure and slow-call rate) whose "
-                     "window ends exactly at / one below / one above the threshold, directly or by sliding; half of them float-sensitive boundaries (gen.circuit.boundaries)",
+                     "window ends exactly at / one below / one above the threshold, directly or by sliding; half of them float-sensitive boundaries (gen.circuit.boundaries); "
+                     "40%: the configuration written as the builder chain itself (any order of setters, failure_classifier / classify_response before or after "
+                     "sliding_window_size, overridden setters, defaults left unset); 8%: the presets standard / fast_fail / tolerant, circuit_breaker_builder() and the bare "
+                     "builder, as they are or customised, driven to their documented threshold / wait / permitted calls; 9%: health signals (trigger_unhealthy / "
+                     "trigger_healthy) with probes and calls before the task is scheduled; 8%: half-open episodes with the trial calls in flight together and more callers "
+                     "arriving (inner service invoked or not); several services from one layer value; reused handles; on_slow_call checked against the measured durations",
                 level_text="Theorems TR.Props.C04.*: the model's window is exactly the last sliding_window_size outcomes (count) / the outcomes no older "
                            "than the window duration (time); the incrementally maintained counters equal the counts over that window; closed->open exactly when the "
                            "documented condition holds; open->half-open at the first call after the wait; half-open->closed after permitted successes, ->open on a failure; "
                            "a rate exactly equal to the threshold trips, one below stays closed (exact rational comparison); "
-                           "reset empties the window; all views are the same function of the state."),
-    "C09": dict(COMMON, module="TR.Props.C09", gen=gen_c09, all_transitions=ALL_TR + TR_TEARDOWN + TR_EPISODES, monitors=[("c09-halfopen-trials", mon_c09), ("c09-excess-answered-at-once", mon_at_once)],
+                           "reset empties the window; all views (state, state_sync, is_open, metrics, http_status, health_status) are the same function of the state; "
+                           "the builder: an unset minimum_number_of_calls is the FINAL window size wherever the classifier setter stands "
+                           "(builder_minimum_defaults_to_final_window, classifier_setter_commutes), the setting given last wins, the presets are their documented values."),
+    "C09": dict(COMMON, module="TR.Props.C09", gen=gen_c09, all_transitions=ALL_TR + TR_TEARDOWN + TR_EPISODES + TR_BUILD + TR_READY,
+                monitors=[("c09-halfopen-trials", per_service(mon_c09)), ("c09-excess-answered-at-once", per_service(mon_at_once))],
                 rule="breaker driven to half-open, then many callers arriving together with slow trial calls, mixed outcomes, drops and panics of "
                      "trial futures; both window types; 20%: several half-open episodes in one history, ended in the middle by reset / force_closed / force_open / a failing "
                      "trial with trials still in flight, the last episode filled, then the leftovers dropped or completed with late callers after each; callers arriving "
-                     "from inside the destructor of a cancelled trial (manual ondrop) with all slots taken",
+                     "from inside the destructor of a cancelled trial (manual ondrop) with all slots taken; the wrapped service not ready around a half-open "
+                     "episode; health signals; presets' documented permitted calls; builder chains, Layer::layer / for_request, several services from one layer, reused handles",
                 level_text="Theorems TR.Props.C09.*: in every reachable half-open state, trial calls started in the episode minus those cancelled equals "
                            "half_open_admitted <= permitted; excess callers are rejected in the same step; no wedge: when no trial of the episode is in flight a slot is free; "
                            "every taken slot belongs to a live (or succeeded) trial of the current episode, overrides never rewind the episode counter, cancelling a leftover frees nothing; "
-                           "a caller arriving during the tear-down of a cancelled trial (before its drop) is rejected when all slots are taken."),
+                           "a caller arriving during the tear-down of a cancelled trial (before its drop) is rejected when all slots are taken; a rejected caller "
+                           "leaves the breaker untouched, so the next caller is rejected as well (rejected_caller_frees_nothing); each service made from a layer counts its own trials."),
 }
